@@ -441,36 +441,7 @@ func c20Delay(c *Check, P string) {
 			}
 		}
 	}
-	// delay.Message: both keys from one Delay value
-	if msgFn != nil {
-		dP := msgFn.Params[1]
-		got := map[string]bool{}
-		for _, s := range CallsTo(msgFn, nMetaSet) {
-			k, _ := ConstString(Arg(s, 0))
-			rf := LoadedField(firstOrigin(Receiver(s)))
-			okR := rf != nil && rf.Name() == "Metadata"
-			fromD := Wraps(Arg(s, 1), func(v ssa.Value) bool {
-				switch x := v.(type) {
-				case *ssa.Field:
-					return FromParam(dP)(x.X)
-				case *ssa.UnOp:
-					if fa, ok := x.X.(*ssa.FieldAddr); ok {
-						return cellOf(fa.X) != nil || FromParam(dP)(fa.X)
-					}
-				}
-				return false
-			})
-			okKind := false
-			if call, ok := firstOrigin(Arg(s, 1)).(*ssa.Call); ok {
-				n := CalleeName(call)
-				okKind = (k == untilKey && n == "(time.Time).Format") || (k == forKey && n == "(time.Duration).String")
-			}
-			if k == forKey || k == untilKey {
-				got[k] = okR && fromD && okKind
-			}
-		}
-		c.Report(got[forKey] && got[untilKey], P+".O2", "DELAY-MESSAGE-BOTH-KEYS", msgFn, msgFn.Pos(), "delay.Message", "delay.Message writes delayed-until (time, formatted) and delayed-for (duration) from the two fields of the one Delay value it is given")
-	}
+	c20DelayMessage(c, P+".O2")
 	// For / Until agree
 	for _, name := range []string{"For", "Until"} {
 		fn := c.P.Func(rel, name)
@@ -859,4 +830,62 @@ func c20Observe(c *Check, P string, fn *ssa.Function, kind string, setters, gett
 			}
 		}
 	}
+}
+
+// c20DelayMessage: delay.Message writes both keys directly from the two fields
+// of the Delay value it is given (shared with C19: DelayOnError reads its own
+// previous value back from this metadata, so any rounding accumulates).
+func c20DelayMessage(c *Check, id string) {
+	const rel = "components/delay"
+	msgFn := c.P.Func(rel, "Message")
+	if !c.Use(id, msgFn, "delay.Message") {
+		return
+	}
+	forKey, _ := c.P.ExportedConstString(rel, "DelayedForKey")
+	untilKey, _ := c.P.ExportedConstString(rel, "DelayedUntilKey")
+	dP := msgFn.Params[1]
+	isFieldOfDelay := func(v ssa.Value, typ string) bool {
+		o := firstOrigin(v)
+		switch x := o.(type) {
+		case *ssa.Field:
+			return FromParam(dP)(x.X) && x.Type().String() == typ
+		case *ssa.UnOp:
+			if fa, ok := x.X.(*ssa.FieldAddr); ok {
+				if cell := cellOf(fa.X); cell != nil {
+					vals, _, _ := StoresTo(cell)
+					okAll := len(vals) > 0
+					for _, sv := range vals {
+						if sv != ssa.Value(dP) {
+							okAll = false
+						}
+					}
+					return okAll && x.Type().String() == typ
+				}
+				return FromParam(dP)(fa.X) && x.Type().String() == typ
+			}
+		}
+		return false
+	}
+	got := map[string]bool{}
+	n := 0
+	for _, s := range CallsTo(msgFn, nMetaSet) {
+		n++
+		k, _ := ConstString(Arg(s, 0))
+		rf := LoadedField(firstOrigin(Receiver(s)))
+		okR := rf != nil && rf.Name() == "Metadata"
+		okV := false
+		if call, ok := firstOrigin(Arg(s, 1)).(*ssa.Call); ok {
+			switch {
+			case k == untilKey && CalleeName(call) == "(time.Time).Format":
+				okV = isFieldOfDelay(call.Call.Args[0], "time.Time")
+			case k == forKey && CalleeName(call) == "(time.Duration).String":
+				okV = isFieldOfDelay(call.Call.Args[0], "time.Duration")
+			}
+		}
+		if k == forKey || k == untilKey {
+			got[k] = okR && okV
+		}
+	}
+	c.Report(got[forKey] && got[untilKey] && n == 2, id, "DELAY-MESSAGE-BOTH-KEYS", msgFn, msgFn.Pos(), "delay.Message",
+		"delay.Message writes delayed-until (the time field, formatted) and delayed-for (the duration field's String(), unrounded) straight from the one Delay value it is given")
 }
